@@ -150,7 +150,7 @@ type c14TB interface {
 type c14H struct {
 	t      *rapid.T // nil in the scripted confirm tests: no draws, sorted orders
 	tb     c14TB
-	script func(h *c14H, point string)     // scripted hook (confirm tests)
+	script func(h *c14H, point string)               // scripted hook (confirm tests)
 	order  func(name string, keys []string) []string // scripted iteration order
 	rec    *ev.Recorder
 	ipver  int
@@ -180,8 +180,6 @@ type c14H struct {
 func (h *c14H) now() int64 { return h.clock.KTimeNanos() }
 
 func (h *c14H) class(c string) { h.classes[c] = true }
-
-func (h *c14H) connState(c *c14Conn) c14State { return c.st }
 
 // ---- entry encoding (real constructors) ------------------------------------------------
 
@@ -881,10 +879,6 @@ func TestVerifC14CleanupNeverRemovesLive(t *testing.T) {
 
 // ---- scripted tests (no rapid): the confirm test of the open known finding (named
 // TestVerifC14_..., outside the unit's run pattern) and a regression input of a fixed one ----
-
-type c14Script struct {
-	h *c14H
-}
 
 func c14NewScripted(t *testing.T, ipver int) *c14H {
 	native := c14StartNative(t, ipver)
